@@ -67,6 +67,14 @@ type BloomSearchEngine struct {
 	started bool
 	stopped bool
 
+	// stopping is closed as soon as Stop begins, before it waits for the
+	// state lock. IngestRows and Flush callers blocked on a full ingestChan
+	// hold the read lock; nothing drains the channel of an engine that was
+	// never started (or whose pipeline is wedged), so without this signal Stop
+	// could not take the write lock and would overrun its deadline.
+	stopping     chan struct{}
+	stoppingOnce sync.Once
+
 	// mergeMu makes Merge single-flight in-process (see ErrMergeInProgress).
 	mergeMu sync.Mutex
 
@@ -230,6 +238,7 @@ func NewBloomSearchEngine(config BloomSearchEngineConfig, metaStore MetaStore, d
 
 		querySemaphore: make(chan struct{}, config.MaxQueryConcurrency),
 		ingestDone:     make(chan struct{}),
+		stopping:       make(chan struct{}),
 	}, nil
 }
 
@@ -294,6 +303,10 @@ func (b *BloomSearchEngine) Stop(ctx context.Context) error {
 		}
 	}()
 	verifPoint("stop.armed", 0, 0, nil)
+
+	// Release callers blocked on a full ingest buffer (they hold the read
+	// lock): from here on they return ErrEngineStopped instead of waiting.
+	b.stoppingOnce.Do(func() { close(b.stopping) })
 
 	b.stateMu.Lock()
 	b.stopped = true
